@@ -33,7 +33,12 @@ for d in sorted(glob.glob('/verif/seeded/*/patch.diff')):
     row = {pid: {'exit': rc, 'rules': rules} for pid, rc, v, rules in res if rc}
     matrix[sid] = {'breaks_property': target, 'target_check_reports_violation': row.get(target, {}).get('exit') == 1, 'alarms': row}
     print(sid, 'target', target, 'DETECTED' if matrix[sid]['target_check_reports_violation'] else 'MISSED', {k: v['rules'] for k, v in row.items()}, flush=True)
-if len(sys.argv) == 1:
+if len(sys.argv) > 1 and os.path.exists('/verif/seeded/MATRIX.json'):
+    # a pattern re-runs some rows: merge them into the recorded matrix
+    full = json.load(open('/verif/seeded/MATRIX.json'))
+    full.update(matrix)
+    matrix = {k: full[k] for k in sorted(full)}
+if True:
     json.dump(matrix, open('/verif/seeded/MATRIX.json', 'w'), indent=1)
     with open('/verif/seeded/MATRIX.md', 'w') as f:
         f.write('| seeded change | breaks | target check | rules that fire (check: rules) |\n|---|---|---|---|\n')
